@@ -1,12 +1,12 @@
 SPECIFICATION Spec
 CONSTANTS
-  Policy = "naive"
-  Cfg <- CfgNaive2S
+  Policy = "priority-pool"
+  Cfg <- CfgPP
   Shapes <- ShapesA
   NPipes = 2
   MaxTick = 14
-  Prios = {"B"}
-  ArrTicks = {0,1,2}
+  Prios = {"B","Q","I"}
+  ArrTicks = {0,1}
 INVARIANT C08_NoCrash
 INVARIANT C08_Admissible
 INVARIANT C01_ParentsDone
